@@ -825,8 +825,11 @@ func c05prop(ev *evid.Rec) func(rt *rapid.T) {
 				bits.Set(n)
 			}
 		}
-		bits = bits.Defined() // the account file stores defined privileges only
 		via := rapid.SampledFrom([]string{"", "", "setuser"}).Draw(rt, "via")
+		if via != "setuser" {
+			bits = bits.Defined() // the account file stores defined privileges only
+		}
+		// (an administrator's set-user carries the 64 bits as sent: the 24 bits that name no privilege must grant nothing)
 		allowed := c05run(rt, cell, bits, via)
 		lab := "hasnt"
 		if allowed {
@@ -849,7 +852,7 @@ func TestC05(t *testing.T) {
 // c05matrix enumerates cell x single-privilege bitmaps (each of the 40 defined bits) plus
 // cell x {all, none, all-but-one governing}: the request must be allowed iff the single
 // bit is the (only) governing one.
-func c05matrix(t *testing.T, ev *evid.Rec) {
+func c05matrix(t *testing.T, ev *evid.Rec, undefinedToo ...bool) {
 	shard, _ := strconv.Atoi(os.Getenv("VERIF_SHARD_INDEX"))
 	nsh, _ := strconv.Atoi(os.Getenv("VERIF_NSHARDS"))
 	if nsh < 1 {
@@ -859,18 +862,32 @@ func c05matrix(t *testing.T, ev *evid.Rec) {
 		cell *c05cell
 		bits hlref.Access
 		kind string
+		via  string
 	}
 	var jobs []job
 	for i := range c05cells {
 		c := &c05cells[i]
 		for _, b := range hlref.DefinedPrivs {
-			jobs = append(jobs, job{c, hlref.AccessOf(b), "single"})
+			jobs = append(jobs, job{c, hlref.AccessOf(b), "single", ""})
 		}
-		jobs = append(jobs, job{c, hlref.AllAccess().Defined(), "all"}, job{c, hlref.Access{}, "none"})
+		jobs = append(jobs, job{c, hlref.AllAccess().Defined(), "all", ""}, job{c, hlref.Access{}, "none", ""})
+		if len(undefinedToo) > 0 && undefinedToo[0] {
+			// each of the 24 bits that name no privilege, alone, delivered by an administrator's set-user (an account
+			// file cannot hold them): it governs nothing
+			def := map[int]bool{}
+			for _, b := range hlref.DefinedPrivs {
+				def[b] = true
+			}
+			for b := 0; b < 64; b++ {
+				if !def[b] {
+					jobs = append(jobs, job{c, hlref.AccessOf(b), "single-undefined", "setuser"})
+				}
+			}
+		}
 		for _, n := range c.allNeeds() {
 			a := hlref.AllAccess().Defined()
 			a.Clear(n)
-			jobs = append(jobs, job{c, a, "all-but-one-governing"})
+			jobs = append(jobs, job{c, a, "all-but-one-governing", ""})
 		}
 	}
 	// every matrix job is one deterministic execution; it goes through rapid only for the SyncTest plumbing
@@ -883,7 +900,7 @@ func c05matrix(t *testing.T, ev *evid.Rec) {
 		j := j
 		var allowed bool
 		rapid.Check(t, func(rt *rapid.T) {
-			allowed = c05run(rt, j.cell, j.bits)
+			allowed = c05run(rt, j.cell, j.bits, j.via)
 		})
 		if t.Failed() {
 			t.Fatalf("VERIF-VIOLATION matrix cell %s bitmap %v", j.cell.name, definedSet(j.bits))
@@ -893,7 +910,7 @@ func c05matrix(t *testing.T, ev *evid.Rec) {
 			lab = "has"
 		}
 		nd := len(definedSet(j.bits))
-		ev.Case(evid.Hash(j.cell.name, j.bits[:]), nd != 0 && nd != 40, "cell:"+j.cell.name+":"+lab, "matrix:"+j.kind)
+		ev.Case(evid.Hash(j.cell.name, j.bits[:]), (nd != 0 && nd != 40) || j.kind == "single-undefined", "cell:"+j.cell.name+":"+lab, "matrix:"+j.kind)
 		if ev.WantSample() {
 			ev.Sample(map[string]any{"cell": j.cell.name, "governing": j.cell.effects, "requester_privileges": definedSet(j.bits), "expected": lab})
 		}
@@ -912,5 +929,5 @@ func TestC05Matrix(t *testing.T) {
 func TestC16Authz(t *testing.T) {
 	ev := evid.New("C16", "TestC16Authz")
 	defer ev.Flush()
-	c05matrix(t, ev)
+	c05matrix(t, ev, true)
 }
